@@ -398,6 +398,6 @@ fn hist_oracle(c: &HistCase, info: &mut Case) -> Result<(), String> {
 }
 
 pub fn run(ctx: &Ctx) {
-    ctx.explore("pure", ctx.tier.pick(24_000, 120_000), 16, pure_case, pure_oracle);
-    ctx.explore("history", ctx.tier.pick(12_000, 60_000), 16, hist_case, hist_oracle);
+    ctx.explore("pure", ctx.tier.pick(24_000, 1_000_000), 16, pure_case, pure_oracle);
+    ctx.explore("history", ctx.tier.pick(12_000, 500_000), 16, hist_case, hist_oracle);
 }
